@@ -14,7 +14,7 @@ THEOREMS = [
     "C15_compositional_list", "C15_compositional_dict", "C15_compositional_tuple",
     "C15_compositional_optional", "C15_compositional_field", "C15_compositional_wrapper",
     "C15_unpack_compositional_list", "C15_unpack_compositional_dict", "C15_unpack_compositional_tuple",
-    "C15_unpack_compositional_optional",
+    "C15_unpack_compositional_optional", "C15_unpack_agree", "C15_unpack_agree_data",
     "C15_frame_partial", "C15_frame_creation_extends", "C15_frame_history",
     "C15_lookalike_refuted", "C15_subclass_refuted", "C15_frame_subclass_refuted",
     "C15_fieldless_member_refuted", "C15_dialect_priority_refuted", "C15_union_order_observable", "C15_union_container_refuted",
